@@ -13,8 +13,34 @@
 //@struct file=poly-commit/src/ipa_pc/data_structures.rs name=UniversalParams
 //@struct file=poly-commit/src/ipa_pc/data_structures.rs name=CommitterKey
 pub type VerifierKey = CommitterKey;
-// the i-th transparent generator: hash-to-curve of (PROTOCOL_NAME, i[, j]) - a deterministic function of i   [sample_generators is outside the verified text]
-pub uninterp spec fn ipa_gen(i: nat) -> AS;
+// the i-th transparent generator: hash-to-curve by try-and-increment over the byte strings PROTOCOL_NAME || i and PROTOCOL_NAME || i || j
+// ---- trusted environment: digest, from_random_bytes, cofactor multiplication, byte-string plumbing ----
+pub uninterp spec fn pname() -> Seq<u8>;                       // Self::PROTOCOL_NAME
+pub uninterp spec fn le8(x: u64) -> Seq<u8>;                   // u64::to_le_bytes
+pub uninterp spec fn dig(b: Seq<u8>) -> Seq<u8>;               // D::digest
+pub uninterp spec fn frb(b: Seq<u8>) -> Option<G1Affine>;      // G::from_random_bytes
+pub uninterp spec fn cof(g: G1Affine) -> AS;                   // mul_by_cofactor_to_group
+#[verifier::external_body] pub fn protocol_name() -> (r: Vec<u8>) ensures r@ == pname() { unimplemented!() }
+#[verifier::external_body] pub fn u64_to_le_bytes(x: u64) -> (r: Vec<u8>) ensures r@ == le8(x) { unimplemented!() }
+#[verifier::external_body] pub fn bytes_concat2(a: Vec<u8>, b: &Vec<u8>) -> (r: Vec<u8>) ensures r@ == a@ + b@ { unimplemented!() }        // [a, b].concat()
+#[verifier::external_body] pub fn bytes_extend(v: &mut Vec<u8>, b: &Vec<u8>) ensures final(v)@ == old(v)@ + b@ { unimplemented!() }           // v.extend(b)
+#[verifier::external_body] pub fn digest(b: &[u8]) -> (r: Vec<u8>) ensures r@ == dig(b@) { unimplemented!() }
+#[verifier::external_body] pub fn from_random_bytes(b: &Vec<u8>) -> (r: Option<G1Affine>) ensures r == frb(b@) { unimplemented!() }
+#[verifier::external_body] pub fn mul_by_cofactor_to_group(g: G1Affine) -> (r: G1) ensures r@ == cof(g) { unimplemented!() }
+#[verifier::external_body] pub fn ctr_inc_u64(j: &mut u64) ensures *final(j) == *old(j) + 1 { unimplemented!() }      // j += 1 (assumption: fewer than 2^64 retries)
+// ---- specification ----
+// attempt 0 hashes PROTOCOL_NAME || i, attempt t >= 1 hashes PROTOCOL_NAME || i || (t - 1): EVERY attempt depends on the index i
+pub open spec fn attempt(i: u64, t: nat) -> Option<G1Affine> { if t == 0 { frb(dig(pname() + le8(i))) } else { frb(dig(pname() + le8(i) + le8((t - 1) as u64))) } }
+pub open spec fn first_hit(i: u64, t: nat) -> bool { attempt(i, t) is Some && forall|t2: nat| t2 < t ==> attempt(i, t2) is None }
+pub open spec fn ipa_gen(i: nat) -> AS { let t = choose|t: nat| #[trigger] first_hit(i as u64, t); cof(attempt(i as u64, t)->Some_0) }
+pub proof fn lemma_first_hit_unique(i: u64, t: nat)
+    requires first_hit(i, t)
+    ensures ipa_gen(i as nat) == cof(attempt(i, t)->Some_0)
+{
+    let t0 = choose|t0: nat| #[trigger] first_hit(i as nat as u64, t0);
+    assert(first_hit(i, t));
+    if t0 < t { assert(attempt(i, t0) is None); } else if t < t0 { assert(attempt(i, t) is None); }
+}
 
 impl UniversalParams {
 //@fn id=ipa.UniversalParams.max_degree file=poly-commit/src/ipa_pc/data_structures.rs scope="impl<G: AffineRepr> PCUniversalParams for UniversalParams<G>" name=max_degree props=C09
@@ -29,8 +55,43 @@ impl UniversalParams {
 
 pub struct InnerProductArgPC;
 impl InnerProductArgPC {
-    #[verifier::external_body] fn sample_generators(num_generators: usize) -> (r: Vec<G1Affine>)
-        ensures r@.len() == num_generators, forall|i: int| 0 <= i < num_generators ==> (#[trigger] r@[i])@ == ipa_gen(i as nat) { unimplemented!() }
+//@fn id=ipa.sample_generators file=poly-commit/src/ipa_pc/mod.rs scope="impl<G, D, P> InnerProductArgPC<G, D, P>" name=sample_generators props=C09
+    #[verifier::exec_allows_no_decreases_clause]
+    fn sample_generators(num_generators: usize) -> (r: Vec<G1Affine>)
+    ensures
+        r@.len() == num_generators,
+        forall|i: int| 0 <= i < num_generators ==> (#[trigger] r@[i])@ == ipa_gen(i as nat),   // name=ipa.sample_generators.each_generator_is_the_first_curve_point_of_its_own_index_sequence props=C09
+//@body
+//@rw 1 /(?s)let generators: Vec<_> = ark_std::cfg_into_iter!\(0\.\.num_generators\)\s*\.map\(\|i\| \{(.*?)\n            \}\)\s*\.collect\(\);/ => let mut generators: Vec<G1> = Vec::new();
+        let mut i__o: usize = 0;
+        while i__o < num_generators
+            invariant i__o <= num_generators, generators@.len() == i__o, forall|q: int| 0 <= q < generators@.len() ==> (#[trigger] generators@[q])@ == ipa_gen(q as nat),
+        {
+            let ghost gens0 = generators@;
+            let i = i__o;
+            let gp__: G1 = {\1
+            };
+            generators.push(gp__);
+            proof { assert forall|q: int| 0 <= q < generators@.len() implies (#[trigger] generators@[q])@ == ipa_gen(q as nat) by { if q < i__o { assert(generators@[q] == gens0[q]); } } }
+            ctr_inc(&mut i__o);
+        }
+//@rw * /\[Self::PROTOCOL_NAME, &(\w+)\.to_le_bytes\(\)\]\.concat\(\)\.as_slice\(\)/ => bytes_concat2(protocol_name(), &u64_to_le_bytes(\1)).as_slice()
+//@rw * /Self::PROTOCOL_NAME\.to_vec\(\)/ => protocol_name()
+//@rw * /bytes\.extend\((\w+)\.to_le_bytes\(\)\);/ => bytes_extend(&mut bytes, &u64_to_le_bytes(\1));
+//@rw * /D::digest\(/ => digest(
+//@rw * /G::from_random_bytes\(/ => from_random_bytes(
+//@rw 1 /j \+= 1;/ => ctr_inc_u64(&mut j);
+//@rw 1 /generator\.mul_by_cofactor_to_group\(\)/ => mul_by_cofactor_to_group(generator)
+//@rw 1 /G::Group::normalize_batch\(/ => G1::normalize_batch(
+//@loop 1 kw=while
+                    invariant j as nat == tt, g == attempt(i, tt), forall|t2: nat| t2 < tt ==> attempt(i, t2) is None, i as nat == i__o,
+//@beforeloop 1
+                let ghost mut tt: nat = 0;
+//@loopend 1
+                    proof { tt = tt + 1; }
+//@before /let generator = g\.unwrap\(\);/
+                proof { assert(first_hit(i, tt)); lemma_first_hit_unique(i, tt); }
+//@end
 
 //@fn id=ipa.setup file=poly-commit/src/ipa_pc/mod.rs scope="impl<G, D, P> PolynomialCommitment<G::ScalarField, P> for InnerProductArgPC<G, D, P>" name=setup props=C09,C19,C17
     fn setup(max_degree: usize, _num_vars: Option<usize>, _rng: &mut Rng) -> (res: Result<UniversalParams, Error>)
